@@ -96,7 +96,7 @@ func TestBinaryIgnoreHost(t *testing.T) {
 		}
 		datagram := strings.Join(lines, "\n")
 		if !b.AwaitLine(datagram, "stats.gauge.bl0", 30*time.Second) {
-			if b.Exited() {
+			if b.Exited() && !b.BindFailed() {
 				vt.Fail(t, "C05:parser-panic", "%s exited on datagram %q; output: %s", b.Describe(), datagram, b.Tail(40))
 			}
 			ev.C().Excluded("datagram-lost-on-loopback", 1)
